@@ -1,4 +1,106 @@
-import PgsVerif.Model.AstSem2
+import PgsVerif.Props.C01
+import PgsVerif.Proofs.HydrateSpec
+/-!
+# C03 — every type reference resolves to the declared entity with the right shape
+
+`hydrate` resolves each reference through the index *as it is at that moment* (ast.go: field types
+after the file's messages, methods while services are registered, extensions after all files).
+The theorems say that, on every valid request, what it produced is the declarative graph:
+each field / extension type is `specType` — classified by the table (label, type, "the referenced
+message is a map entry") into exactly one of scalar / enum / embed / repeated / map — and every enum or
+message it refers to, directly, as repeated element or as map key / value, every method input /
+output and every extendee is `declaredAs w name kind`: THE declaration of the request bearing that
+fully-qualified name, in whichever file it is declared.
+-/
 namespace Pgs.AST
-theorem placeholder_C03 : True := trivial
+
+theorem specFTypes_eq (w : World) : specFTypes w 0 w.files = (allFields w).map (fun x => (x.1, specType w x.2)) := by
+  unfold specFTypes allFields
+  rw [List.map_flatten, List.map_map]
+  congr 1
+  apply List.map_congr_left
+  intro q _
+  obtain ⟨k, f⟩ := q
+  simp only [Function.comp, Nat.zero_add]
+
+theorem specFilesMio_eq (w : World) : specFilesMio w 0 w.files = specMio w := by
+  unfold specFilesMio specMio specSvcMio
+  congr 1
+  apply List.map_congr_left
+  intro q _
+  simp only [Nat.zero_add]
+
+/-- **C03 (resolution)**: on a valid request the build succeeds and the types of all fields and
+    extensions, the inputs / outputs of all methods and the extendees of all extensions are the
+    declarative ones. -/
+theorem C03_graph (w : World) (hv : Valid w) : ∃ g, hydrate w = .ok g ∧
+    g.ftypes = (allFields w ++ allExts 0 w.files).map (fun x => (x.1, specType w x.2)) ∧
+    g.mio = specMio w ∧
+    g.extendees = (allExts 0 w.files).map (fun x => (x.1, declaredAs w x.2.extendee .msg)) := by
+  obtain ⟨g, hg, hs⟩ := C01_no_failure w hv
+  obtain ⟨_, t, o, e⟩ := hydrate_spec w hv.keysNodup g hg (fun d hd => by rw [hs] at hd; exact List.mem_reverse.mp hd)
+  refine ⟨g, hg, ?_, ?_, e⟩
+  · rw [t, specFTypes_eq, List.map_append]
+  · rw [o, specFilesMio_eq]
+
+/-- **C03 (classification)**: the declarative type falls in exactly the class the table gives. -/
+theorem C03_shape (w : World) (r : Ref) (f : FieldD) : (typeRec r f (specType w f)).shape = specShape w f := by
+  unfold specType specShape
+  by_cases h3 : f.label = 3
+  · simp only [h3, if_true]
+    by_cases h14 : f.type = 14
+    · simp [h14, typeRec]
+    · by_cases h11 : f.type = 11
+      · by_cases hm : isMapEntryFqn w f.typeName = true
+        · simp only [h14, h11, hm, if_true, if_false, decide_true, Bool.and_self]
+          have h1114 : ¬ ((11 : Nat) = 14) := by decide
+          simp only [h1114, if_false]
+          split
+          · split <;> rfl
+          · rfl
+        · simp [h14, h11, hm, typeRec]
+      · simp [h14, h11, typeRec]
+  · simp only [h3, if_false]
+    by_cases h14 : f.type = 14
+    · simp [h14, typeRec]
+    · by_cases h11 : f.type = 11
+      · simp [h11, typeRec]
+      · simp [h14, h11, typeRec]
+
+/-- the five classes are exhaustive and exclusive: the table has one answer -/
+theorem C03_shape_one_of (w : World) (f : FieldD) :
+    specShape w f ∈ ["scalar", "enum", "embed", "repeated", "map"] := by
+  unfold specShape
+  by_cases h3 : f.label = 3 <;> by_cases h14 : f.type = 14 <;> by_cases h11 : f.type = 11 <;>
+    cases isMapEntryFqn w f.typeName <;> simp [h3, h14, h11]
+
+/-- **C03 (target identity)**: wherever a reference names a declaration of the right kind, the
+    entity it resolved to is that declaration (also across files: `declared w` spans the request). -/
+theorem C03_target_declared (w : World) (hv : Valid w) (k : String) (kind : Kind)
+    (h : Resolves (declared w) k kind) : ∃ d ∈ declared w, d.key = k ∧ d.kind = kind ∧ declaredAs w k kind = d.ref := by
+  obtain ⟨d, hd, rfl, rfl⟩ := h
+  exact ⟨d, hd, rfl, rfl, declaredAs_of_mem w hv.keysNodup d hd⟩
+
+/-- every extension's extendee and type name resolve (validity), hence by the two theorems above to
+    declared entities -/
+theorem C03_ext_resolves (w : World) (hv : Valid w) : ∀ x ∈ allExts 0 w.files,
+    ∃ d ∈ declared w, d.key = x.2.extendee ∧ d.kind = .msg ∧ declaredAs w x.2.extendee .msg = d.ref := by
+  intro x hx
+  exact C03_target_declared w hv _ _ (hv.exts x hx).2
+
+/-- the model observation never reports failure on a valid request -/
+theorem C03_not_failed (w : World) (hv : Valid w) : (c03Model w).failed = false := by
+  obtain ⟨g, hg, _⟩ := C01_no_failure w hv
+  simp [c03Model, hg]
+
+end Pgs.AST
+
+/-! ### non-vacuity on the example request of Props/C01 -/
+namespace Pgs.AST
+example : specType exW ⟨"m", 2, 3, 11, ".p.M.MEntry", none, false, ""⟩ = .map (.scalar 9) (.embed 11 ⟨0, [4, 0]⟩) := by decide
+example : specType exW ⟨"x", 1, 1, 11, ".p.M", none, false, ""⟩ = .embed ⟨0, [4, 0]⟩ := by decide
+example : specMio exW = [(⟨1, [6, 0, 2, 0]⟩, ⟨0, [4, 0]⟩, ⟨1, [4, 0]⟩)] := by decide
+example : ∃ g, hydrate exW = .ok g ∧ g.mio = specMio exW := by
+  obtain ⟨g, h, _, m, _⟩ := C03_graph exW exW_valid
+  exact ⟨g, h, m⟩
 end Pgs.AST
